@@ -1,0 +1,16 @@
+//go:build verif
+// +build verif
+
+// Machine-checked contracts for this package (checked by /verif/govc).
+// Comment-only: no executable code.
+
+package query
+
+//@ import types "github.com/ovrclk/akash/x/deployment/types"
+
+// a parsed path names the owner given in its first component (canonically rendered) - C09 tenant scoping
+//@ func ParseGroupPath
+//@   ensures result1 == nil ==> len(parts) >= 3 && validBech32(parts[0]) && result0.Owner == bech32(unbech32(parts[0]))
+//@        && result0.DSeq == atoi(parts[1]) && result0.GSeq == atoi(parts[2])
+
+//@ property C09 := ParseGroupPath#*
